@@ -92,7 +92,9 @@ def run(ctx, rep):
                         a2 = util.addr_class(mod, g, ref)
                         return a2['kind'] == 'call' and a2['inst'].callee == 'nsync_waiter_new_' and not a2['path']
                     own = bool(sites) and all(from_new(g, i.ops[k]) for g, i in sites)
-                if not own and ac['kind'] == 'arg':
+                # (the dequeue slot of the cv waitable: int f (void *v, struct nsync_waiter_s *nw), removing the record it was handed)
+                is_slot = [a_['ty'] for a_ in fn.args] == ['i8*', '%struct.nsync_waiter_s*'] and ac.get('arg') == 'a1'
+                if not own and ac['kind'] == 'arg' and is_slot:
                     # the dequeue function of the cv waitable (nsync_wait_n's record, not a pooled waiter): "was I still queued?" is decided by
                     # reading nw->waiting INSIDE the cv spinlock - a read made before taking it can be overtaken by a signaller, whose wake-up is
                     # then consumed (the record is gone from the queue) but reported as "still queued", i.e. as a timeout
